@@ -345,8 +345,31 @@ func init() {
 				SeedStep: true,
 				Required: []string{"solvency.states_with_claimable_rewards", "state.alliance_stake_on_removed_validator"},
 			}
+			// the solvency probe over the full-pipeline union world (several assets, warm-up, weight schedule, governance, jailing);
+			// value-changing events (slashes, take-rate blocks) taint the history as in c12Step
+			unionFull := unionFullScenario("C12", "c12-union-full-pipeline", tier, func(x *engine.Exec) []engine.Failure {
+				if x.Res.Rejected {
+					return nil
+				}
+				if x.Op.K == world.KBlock && x.Res.Err != nil {
+					return []engine.Failure{fail("endblock", "error", "block failed: %v", x.Res.Err)}
+				}
+				ref := x.Next.Ref.(*rewRef)
+				prev, next := x.Prev.Snap(), x.Next.Snap()
+				if x.Op.K == world.KSlash {
+					ref.Tainted = true
+				}
+				for _, den := range prev.Denoms {
+					if a, ok := next.Assets[den]; ok && !prev.Assets[den].TotalTokens.Equal(a.TotalTokens) && x.Op.K == world.KBlock {
+						ref.Tainted = true
+					}
+				}
+				return solvencyCheck(x, ref)
+			}, func(w *world.World, root *engine.Node) engine.Ref { return newRewRef() }, tierPick(tier, 3, 6))
+			unionFull.Required = []string{"solvency.states_with_claimable_rewards"}
 			if tier == "thorough" {
 				return []*engine.Scenario{
+					unionFull,
 					removed,
 					mk("c12-small", small, rw("1", "7", "1000"), []string{"3"}, []int{3, 1, 2, 2, 0}, 7),
 					mk("c12-mid", mid, rw("7", "1000000"), []string{"500000"}, []int{3, 1, 2, 2, 0}, 7),
@@ -354,6 +377,7 @@ func init() {
 				}
 			}
 			return []*engine.Scenario{
+				unionFull,
 				removed,
 				mk("c12-small", small, rw("7", "1000"), []string{"3"}, []int{2, 1, 1, 2, 0}, 4),
 				mk("c12-mid", mid, rw("1000000"), []string{"500000"}, []int{2, 1, 2, 2, 0}, 5),
